@@ -326,6 +326,8 @@ type HCase struct {
 	Outages []int `json:"outages_ms"` // server down for this long, then restarted on the same ports
 	Kinds   []string `json:"kinds"`   // per outage: "down" (nothing listens) | "blackhole" (something accepts, swallows everything, never answers or closes)
 	TLS     bool  `json:"tls"`
+	Bulk    int   `json:"bulk"` // further stcp proxies of the same client (no traffic): many proxies make the teardown burst large
+	DefaultExit bool `json:"default_login_fail_exit"` // loginFailExit left at its default (true): it governs the FIRST login only
 	Reload  bool  `json:"reload_during_outage"` // the configuration is reloaded while the server is away: one proxy added, one removed
 	UpMs    int   `json:"up_ms"`
 	TCPMux  bool  `json:"tcpmux"`
@@ -337,10 +339,12 @@ func genHeal(t *rapid.T) HCase {
 	n := rapid.IntRange(1, 2).Draw(t, "n")
 	for i := 0; i < n; i++ {
 		c.Outages = append(c.Outages, rapid.SampledFrom([]int{0, 300, 1500, 4000}).Draw(t, fmt.Sprintf("o%d", i)))
-		c.Kinds = append(c.Kinds, rapid.SampledFrom([]string{"down", "down", "blackhole"}).Draw(t, fmt.Sprintf("k%d", i)))
+		c.Kinds = append(c.Kinds, rapid.SampledFrom([]string{"down", "down", "blackhole", "dark"}).Draw(t, fmt.Sprintf("k%d", i)))
 	}
 	c.TLS = rapid.Bool().Draw(t, "tls")
 	c.Reload = rapid.IntRange(0, 2).Draw(t, "reload") == 0
+	c.DefaultExit = rapid.Bool().Draw(t, "defaultexit")
+	c.Bulk = rapid.SampledFrom([]int{0, 0, 0, 0, 30, 150}).Draw(t, "bulk")
 	return c
 }
 
@@ -385,9 +389,36 @@ func runHeal(c HCase) error {
 		p.Name, p.Type, p.LocalIP, p.LocalPort, p.RemotePort = fmt.Sprintf("p%d", i), "tcp", "127.0.0.1", l.Addr().(*net.TCPAddr).Port, s.AllowPort(i)
 		pcs = append(pcs, p)
 	}
+	for i := 0; i < c.Bulk; i++ {
+		p := &v1.STCPProxyConfig{Secretkey: "sk"}
+		p.Name, p.Type, p.LocalIP, p.LocalPort = fmt.Sprintf("bulk%d", i), "stcp", "127.0.0.1", 9
+		pcs = append(pcs, p)
+	}
 	common := fx.BaseClientConfig(s)
 	common.Transport.TCPMux = lo.ToPtr(c.TCPMux)
 	common.Transport.TLS.Enable = lo.ToPtr(c.TLS)
+	hasDark := false
+	for _, k := range c.Kinds {
+		if k == "dark" {
+			hasDark = true
+		}
+	}
+	var relay *fx.Relay
+	if hasDark {
+		// the client reaches the server through a relay that can make the path go dark; the client notices through
+		// its own heartbeat timeout (3 s) long before the server would (its timeout stays at the default 90 s)
+		r, e := fx.NewRelay(blk.Port(fx.SlotExtra+6), s.BindAddr(), "")
+		if e != nil {
+			return fx.Inconclusive("relay: %v", e)
+		}
+		relay = r
+		defer relay.Close()
+		common.ServerPort = relay.Port
+		common.Transport.HeartbeatInterval, common.Transport.HeartbeatTimeout = 1, 3
+	}
+	if c.DefaultExit {
+		common.LoginFailExit = nil // the default: exit when the first login fails (the server is up, so it does not)
+	}
 	if !c.TCPMux {
 		common.Transport.HeartbeatInterval, common.Transport.HeartbeatTimeout = 1, 3
 	}
@@ -442,6 +473,15 @@ func runHeal(c HCase) error {
 	}
 	for k, o := range c.Outages {
 		time.Sleep(time.Duration(c.UpMs) * time.Millisecond)
+		if k < len(c.Kinds) && c.Kinds[k] == "dark" {
+			// no restart: the established connections silently stop carrying anything, new ones work. The client's
+			// heartbeat timeout makes it log in again while the server still holds the old session.
+			relay.GoDark()
+			if e := tunnelsOK(3*time.Second + 20*time.Second + 4*time.Second); e != nil {
+				return fmt.Errorf("outage %d (dark path, tls=%v tcpMux=%v): 27 s after the established connections went dark (client heartbeat timeout 3 s) the tunnels still do not work: %v", k, c.TLS, c.TCPMux, e)
+			}
+			continue
+		}
 		s.Close()
 		if c.Reload && k == 0 {
 			// `frpc reload` while the server is away - and the client has noticed and is in its reconnect loop:
@@ -452,7 +492,7 @@ func runHeal(c HCase) error {
 				return fx.Inconclusive("%v", e)
 			}
 			bls = append(bls, l)
-			ni := len(pcs)
+			ni := c.Proxies // (pcs may also hold bulk stcp proxies)
 			tag := fmt.Sprintf("B%d\n", ni)
 			go func() {
 				for {
